@@ -122,6 +122,9 @@ impl Spec {
 #[derive(Clone, Debug, PartialEq, Eq, Serialize, Deserialize)]
 pub enum Op {
     New { dst: u8, spec: Spec },
+    /// Creates another zone from the spec this thread created most recently
+    /// (whatever became of that zone since: sent away, dropped elsewhere).
+    NewAgain { dst: u8 },
     Clone { src: u8, dst: u8 },
     Drop { slot: u8 },
     /// `dst = take(src)`; the old value of `dst` is dropped.
@@ -193,6 +196,7 @@ impl Op {
     pub fn name(&self) -> &'static str {
         match self {
             Op::New { .. } => "new",
+            Op::NewAgain { .. } => "new_again",
             Op::Clone { .. } => "clone",
             Op::Drop { .. } => "drop",
             Op::Move { .. } => "move",
@@ -229,6 +233,9 @@ impl Op {
 #[derive(Clone, Debug, PartialEq, Eq, Serialize, Deserialize)]
 pub struct Case {
     pub threads: Vec<Vec<Op>>,
+    /// Per-run knob of the memory oracle: fill freed memory with 0xDD.
+    #[serde(default)]
+    pub poison_freed_memory: bool,
 }
 
 pub const N_INSTANTS: u8 = 14;
@@ -278,7 +285,7 @@ pub fn generate(rng: &mut Rng, thorough: bool) -> Case {
         pool.push(fresh_spec(rng));
     }
     // Swarm: some op kinds are switched off per run.
-    let w_send = if nthreads > 1 && rng.chance(3, 4) { 8 } else { 0 };
+    let w_send = if nthreads > 1 && rng.chance(3, 4) { 12 } else { 0 };
     let w_shared = if nthreads > 1 && rng.chance(1, 2) { 6 } else { 0 };
     let w_zoned = if rng.chance(3, 4) { 10 } else { 0 };
     let w_crash = if rng.chance(1, 3) { 2 } else { 0 };
@@ -306,7 +313,7 @@ pub fn generate(rng: &mut Rng, thorough: bool) -> Case {
                 w_new, 16, 12, 6, 8, 14, w_zoned, w_zoned / 2, w_zoned / 2, w_zoned / 2,
                 w_zoned / 2, w_zoned / 2, w_send, w_send, w_shared, w_crash,
                 w_zoned, w_zoned, w_zoned / 3, w_zoned / 2, w_zoned / 2, w_zoned, w_zoned / 3,
-                w_zoned / 2, w_db, w_db / 5, w_db / 2, w_db / 5, w_zoned / 2, w_zoned / 2,
+                w_zoned / 2, w_db, w_db / 5, w_db / 2, w_db / 5, w_zoned / 2, w_zoned / 2, 8,
             ]) {
                 0 => {
                     let dst = slot(rng);
@@ -446,7 +453,12 @@ pub fn generate(rng: &mut Rng, thorough: bool) -> Case {
                     }
                     Op::MakeDerived { src, dst }
                 }
-                _ => Op::UseDerived { slot: full(rng, &occ) },
+                29 => Op::UseDerived { slot: full(rng, &occ) },
+                _ => {
+                    let dst = slot(rng);
+                    occ[dst as usize] = true;
+                    Op::NewAgain { dst }
+                }
             };
             let crash = op == Op::Crash;
             ops.push(op);
@@ -456,7 +468,7 @@ pub fn generate(rng: &mut Rng, thorough: bool) -> Case {
         }
         threads.push(ops);
     }
-    Case { threads }
+    Case { threads, poison_freed_memory: rng.chance(1, 2) }
 }
 
 /// Small programs for the Miri tier (interpretation is ~1000x slower):
